@@ -125,6 +125,65 @@ func propC04(run *Run, n int) {
 		}
 		a, b = withVoid(r, a, b)
 		addC04Case(run, c.o, c.lbl, a, b)
+		if r.Chance(1, 25) {
+			addC04Chained(run, r, cfg)
+		}
+	}
+}
+
+// addC04Chained: Equals between documents that successive Patch calls returned (they may share backing arrays:
+// appending at index -1 reuses spare capacity), judged on their encodings by the same oracle
+func addC04Chained(run *Run, r *Rng, cfg GenCfg) {
+	n := r.Intn(4)
+	xs := []*Val{}
+	for j := 0; j < n; j++ {
+		xs = append(xs, cfg.scalar(r))
+	}
+	docs := []string{}
+	eqs := map[[2]int]string{}
+	res, _ := safely(func() string {
+		cur := mustNode(VArr(xs...).Wire())
+		nodes := []jd.JsonNode{cur}
+		for k := 0; k < 4; k++ {
+			v := cfg.scalar(r)
+			if r.Chance(1, 3) && len(xs) > 0 {
+				v = xs[0].Clone()
+			}
+			d := mustDiff(fmt.Sprintf("< ( s I-1 | | | %s | ) >", v.Wire()))
+			nx, err := cur.Patch(d)
+			if err != nil {
+				break
+			}
+			nodes = append(nodes, nx)
+			cur = nx
+		}
+		for _, nd := range nodes {
+			docs = append(docs, jd.VerifEncodeNode(nd))
+		}
+		for i := range nodes {
+			for j := range nodes {
+				eqs[[2]int{i, j}] = boolWire(nodes[i].Equals(nodes[j]))
+			}
+		}
+		return "done"
+	})
+	if res == "panic" {
+		return
+	}
+	for i := range docs {
+		for j := range docs {
+			if i == j {
+				continue
+			}
+			aw, bw := untagWire(docs[i]), untagWire(docs[j])
+			c := Case{Recipe: Recipe{"c04x", []string{aw, bw, eqs[[2]int{i, j}], eqs[[2]int{j, i}], eqs[[2]int{i, i}]}}, Desc: map[string]string{"a": aw, "b": bw, "how": "documents returned by successive Patch calls (append at -1)"}}
+			c.Nontrivial = aw != bw
+			c.Sig = "chained|" + aw + "|" + bw
+			c.Probes = append(c.Probes, Probe{Kind: "oracle", Rel: "C04 Equals = advertised equivalence (hash-free spec), symmetric, reflexive",
+				Line: fmt.Sprintf("c04 %s %s %s %s %s %s", OptNone.Wire(), aw, bw, eqs[[2]int{i, j}], eqs[[2]int{j, i}], eqs[[2]int{i, i}])})
+			run.Count("opts:chained-patch-results")
+			run.Add(c)
+		}
 	}
 }
 
@@ -579,6 +638,9 @@ func propC08(run *Run, n int) {
 			t, dw := handSetHunk(r, cfg, c.lbl == "MULTISET")
 			run.Count("hunk:hand-written")
 			addC08Case(run, c.lbl, t, dw)
+			if r.Chance(1, 4) {
+				addC08Branching(run, r, cfg, c.lbl == "MULTISET")
+			}
 			continue
 		}
 		var a *Val
@@ -778,6 +840,51 @@ func addSwappedKeyMember(r *Rng, v *Val, keys []string) bool {
 		}
 	}
 	return false
+}
+
+// addC08Branching: two different add-only hunks applied to the SAME document value (itself the result of an add-only
+// hunk): what the first call returned must still hold its members after the second call
+func addC08Branching(run *Run, r *Rng, cfg GenCfg, mset bool) {
+	el := "S"
+	if mset {
+		el = "M"
+	}
+	base := cfg.Arr(r, 1)
+	hunk := func(vs ...*Val) string {
+		ws := []string{}
+		for _, v := range vs {
+			ws = append(ws, v.Wire())
+		}
+		return fmt.Sprintf("< ( s %s | | | %s | ) >", el, strings.Join(ws, " "))
+	}
+	h0, hA, hB := hunk(VNum(31)), hunk(VStr("A")), hunk(VStr("B"), VNum(32))
+	c := Case{Recipe: Recipe{"c08b", []string{base.Wire(), h0, hA, hB}}, Desc: map[string]string{"base": base.Human(), "h0": h0, "hA": hA, "hB": hB}, Nontrivial: true}
+	c.Sig = "branch|" + base.Wire() + el
+	verdict := "ok"
+	res, _ := safely(func() string {
+		mid, err := mustNode(base.Wire()).Patch(mustDiff(h0))
+		if err != nil {
+			return "done"
+		}
+		rA, err := mid.Patch(mustDiff(hA))
+		if err != nil {
+			return "done"
+		}
+		encA := jd.VerifEncodeNode(rA)
+		if _, err := mid.Patch(mustDiff(hB)); err != nil {
+			return "done"
+		}
+		if jd.VerifEncodeNode(rA) != encA {
+			verdict = "fail the document returned by the first add-only hunk changed when another hunk was applied to the same source: " + encA + " became " + jd.VerifEncodeNode(rA)
+		}
+		return "done"
+	})
+	if res == "panic" {
+		verdict = "fail panic"
+	}
+	c.Probes = append(c.Probes, Probe{Kind: "direct", Rel: "C08 adds the listed elements and leaves all other members untouched — also in a document returned earlier from the same source", Want: verdict})
+	run.Count("branching-add-only")
+	run.Add(c)
 }
 
 func addC08Case(run *Run, label string, t *Val, dw string) {
@@ -1087,6 +1194,12 @@ func addC07Case(run *Run, o OptSet, label string, a, b *Val) {
 
 func init() {
 	recipes["c04"] = func(run *Run, a []string) { addC04Case(run, mustOpts(a[0]), "corpus", mustVal(a[1]), mustVal(a[2])) }
+	recipes["c04x"] = func(run *Run, a []string) {
+		c := Case{Recipe: Recipe{"c04x", a}, Nontrivial: true, Sig: "chained|" + a[0] + "|" + a[1]}
+		c.Probes = append(c.Probes, Probe{Kind: "oracle", Rel: "C04 Equals = advertised equivalence (hash-free spec), symmetric, reflexive",
+			Line: fmt.Sprintf("c04 %s %s %s %s %s %s", OptNone.Wire(), a[0], a[1], a[2], a[3], a[4])})
+		run.Add(c)
+	}
 	recipes["c05"] = func(run *Run, a []string) { addC05Case(run, mustOpts(a[0]), "corpus", mustVal(a[1]), mustVal(a[2])) }
 	recipes["c03"] = func(run *Run, a []string) { addC03Case(run, mustVal(a[0]), a[1]) }
 	recipes["c08"] = func(run *Run, a []string) { addC08Case(run, a[0], mustVal(a[1]), a[2]) }
